@@ -30,6 +30,8 @@ enum Exp {
     /// statement succeeds with this value (None = do not check the value)
     Ok(Option<MV>),
     Fail,
+    /// the statement does not fix whether this succeeds: only the invariants are checked
+    Any,
 }
 
 struct Stmt {
@@ -274,6 +276,26 @@ fn alphabet() -> Vec<Stmt> {
             inner: &[],
             model: |m| if m.vars.contains_key("a") || m.vars.contains_key("b") { Exp::Fail } else { Exp::Ok(Some(MV::Int(5))) },
         },
+        // do-blocks without statements whose return expression is (or contains) an assignment:
+        // the binding belongs to the block, whatever the block's position
+        Stmt { src: "do { return a = 8 }", targets: &[], inner: &[], model: |_m| Exp::Ok(Some(MV::Int(8))) },
+        // (an assignment nested inside the return expression is an ordinary assignment expression: it
+        // refuses to shadow a visible outer name, like the lambda-body case below)
+        Stmt {
+            src: "do { return (b = 4) + 1 }",
+            targets: &[],
+            inner: &[],
+            model: |m| if m.vars.contains_key("b") { Exp::Fail } else { Exp::Ok(Some(MV::Int(5))) },
+        },
+        Stmt { src: "if true then do { return a = 3 } else 0", targets: &[], inner: &[], model: |_m| Exp::Ok(Some(MV::Int(3))) },
+        Stmt {
+            src: "b = do { return a = 6 }",
+            targets: &["b"],
+            inner: &[],
+            model: |m| if bind(m, "b", MV::Int(6)) { Exp::Ok(Some(MV::Int(6))) } else { Exp::Fail },
+        },
+        Stmt { src: "do { return inputs = 5 }", targets: &[], inner: &[], model: |_m| Exp::Any },
+        Stmt { src: "do {\n  // only a comment\n  return sum = 3\n}", targets: &[], inner: &[], model: |_m| Exp::Any },
         Stmt { src: "a = nope", targets: &["a"], inner: &[], model: |_m| Exp::Fail },
         Stmt {
             src: "b = (a = 1) + nope",
@@ -562,7 +584,7 @@ pub fn run(ctx: &Ctx, replay: Option<&J>) -> i32 {
     ctx.set("fixpoint_reached", json!(ctx.caps.lock().unwrap().is_empty()));
     ctx.set(
         "trusted_base",
-        json!(["reference model of the 41-statement alphabet in mc/src/c03.rs", "canonical state key (sorted bindings + outputs)"]),
+        json!(["reference model of the 47-statement alphabet in mc/src/c03.rs", "canonical state key (sorted bindings + outputs)"]),
     );
     ctx.assume("names and values outside the statement alphabet are not explored");
     // vacuity guards
